@@ -63,7 +63,7 @@ func c20Respell(r *rand.Rand, q string, mode int) string {
 
 func engineCaseInv(ctx *Ctx) {
 	r := vlib.NewRand(ctx.Seed, ctx.Shard, "caseinv")
-	nDB := ctx.N(240, 2400)
+	nDB := ctx.N(240, 12000)
 	nQ := ctx.Pick(40, 60)
 	for d := 0; d < nDB; d++ {
 		var db *database.Database
@@ -200,7 +200,7 @@ func engineCaseInv(ctx *Ctx) {
 // or in leading / trailing / repeated blanks print the same result block.
 func engineCaseInvCLI(ctx *Ctx) {
 	r := vlib.NewRand(ctx.Seed, ctx.Shard, "caseinv-cli")
-	nDB := ctx.N(64, 640)
+	nDB := ctx.N(64, 1920)
 	for d := 0; d < nDB; d++ {
 		sp := vlib.DBSpec{N: []int{10, 30, 80}[d%3], MixedCase: true, Platforms: d % 2}
 		cmds := vlib.GenCommands(r, sp)
